@@ -136,6 +136,7 @@ class Ref:
         self.loop_bound = set()    # names that a loop bound in at least one evaluated iteration
         self.evaluated = set()     # (template, path) of every plain-variable occurrence that was evaluated
         self.unknown = []
+        self.def_words = set()     # default texts of every defaulted variable that was evaluated (bound or not)
         self.stats = {}
 
     def _c(self, k, n=1):
@@ -183,6 +184,7 @@ class Ref:
                 else:
                     self._c("ref_opt_missing")
             elif k == "def":
+                self.def_words.add(nd[2])
                 if nd[1] in ctx:
                     self._c("ref_def_bound")
                     out.append(str(ctx[nd[1]]))
@@ -480,6 +482,24 @@ def gen_context(rng, templates, p_bound):
 
 
 # ----------------------------------------------------------------------------- sessions on one long-lived renderer
+def default_words(templates) -> set:
+    """Default texts of the templates that are single words (the only defaults that could also be filter names)."""
+    words = set()
+
+    def walk(nodes):
+        for nd in nodes:
+            if nd[0] == "def" and re.fullmatch(r"\w+", nd[2]):
+                words.add(nd[2])
+            elif nd[0] == "if":
+                walk(nd[2])
+                walk(nd[3] or [])
+            elif nd[0] == "each":
+                walk(nd[2])
+    for nodes in templates.values():
+        walk(nodes)
+    return words
+
+
 def include_depth(templates, name="__main__", _seen=()):
     """Static nesting depth of registered includes below `name` (0 = no registered include)."""
     best = 0
